@@ -15,10 +15,14 @@ import verif as V
 STRESS = [("localpool", "localpool"), ("peercluster", "peercluster")]   # (harness main, bngdrv component)
 
 
-def make(prop, monitors):
+def make(prop, monitors, stress=None, envvar="POOL_STRESS", label="LocalPool"):
+    """stress: (harness main, bngdrv component) pairs; envvar switches the harness generator to its stress sequences
+    (default: the LocalPool components; checks/c17.py passes the rendezvous churn stress with RV_STRESS)"""
+    stress = stress or STRESS
+
     def race_pass(ctx):
         total = {"seqs": 0, "lines": 0, "races": 0, "verdicts": 0}
-        for main, drv in STRESS:
+        for main, drv in stress:
             out = os.path.join(ctx.scratch, "hx-%s-race" % main)
             with V.Lock("gomod"):
                 rc, log = V.sh(["go", "build", "-race", "-tags", "verif", "-o", out, "./cmd/" + main],
@@ -27,7 +31,7 @@ def make(prop, monitors):
                 ctx.broken.append(("harness", "go build -race ./cmd/%s failed: %s" % (main, log[-1200:])))
                 continue
             env = dict(os.environ)
-            env["POOL_STRESS"] = "1"
+            env[envvar] = "1"
             tp = os.path.join(ctx.scratch, "%s-stress.trace" % main)
             with open(tp, "w") as fout:
                 p = subprocess.run([out, "gen", "-seed", str(ctx.seed), "-tier", ctx.tier], stdout=fout,
@@ -39,7 +43,7 @@ def make(prop, monitors):
                     "property": prop, "kind": "data-race-or-crash-under-race-detector", "component": drv,
                     "exit_code": p.returncode, "races": races, "stderr": p.stderr[:6000],
                     "replay_cmd": "cd /verif/harness && go build -race -tags verif -o /var/tmp/hx ./cmd/%s && "
-                                  "POOL_STRESS=1 /var/tmp/hx gen -seed %d -tier %s" % (main, ctx.seed, ctx.tier)})
+                                  "%s=1 /var/tmp/hx gen -seed %d -tier %s" % (main, envvar, ctx.seed, ctx.tier)})
                 ctx.violations.append((rp, ""))
             # replay with the property's own driver executable (built by standard_check) so that a module of another
             # property that does not compile cannot take this pass down; the common bngdrv only as a fallback
@@ -82,6 +86,6 @@ def make(prop, monitors):
                     "component": drv, "driver_output": bad[:20], "trace": tr, "ops": V.ops_of(tr)})
                 ctx.violations.append((rp, ""))
             V.summarize_trace(ctx, comp, tp)
-        ctx.notes.append("LocalPool race stress (go build -race, POOL_STRESS=1): %(seqs)d sequences / %(lines)d ops, "
+        ctx.notes.append(label + " race stress (go build -race, " + envvar + "=1): %(seqs)d sequences / %(lines)d ops, "
                          "%(races)d race reports, %(verdicts)d uncovered verdicts or disagreements" % total)
     return race_pass
